@@ -241,7 +241,9 @@ def perturb(rng, st):
 
 
 def random_group(rng, big=False):
-    objs = ["a", "b", "c", "d", "e"][: rng.randint(2, 5 if big else 3)]
+    # names that are prefixes of each other / differ only after a '-', '_' or digit: the order of the SORTED fact texts
+    # inside a group (3ad2e15) is the byte order of the whole text, not of the names
+    objs = rng.choice([["a", "b", "c", "d", "e"], ["a", "ab", "a-b", "a_1", "b"], ["o1", "o10", "o2", "o1-x", "o"]])[: rng.randint(2, 5 if big else 3)]
     for _ in range(20):
         st = rand_abstract(rng, objs, npreds=rng.randint(2, 5))
         if no_interleaved_repeat(st):
